@@ -4,8 +4,8 @@ from .. import sym as S
 from ..conccheck import ob_invariant, ob_conservation, run_conc
 from ..framework import Run, load_known
 
-PROGRAMS_QUICK = ['CM', 'MC', 'QM', 'MQ', 'AM', 'MA', 'CC', 'QC', 'CQ', 'AC', 'QQ', 'AQ', 'PM', 'MP', 'BM', 'MB', 'XM', 'MX', 'XC', 'BQ']
-PROGRAMS_THOROUGH = PROGRAMS_QUICK + ['MM', 'AA', 'CA', 'QA', 'PC', 'CP', 'BC', 'CB', 'CX', 'XQ', 'QX', 'PA', 'BA', 'XA', 'XX', 'BB']
+PROGRAMS_QUICK = ['CM', 'MC', 'QM', 'MQ', 'AM', 'MA', 'CC', 'QC', 'AC', 'AQ', 'PM', 'MP', 'BM', 'MB', 'XC', 'AA']
+PROGRAMS_THOROUGH = PROGRAMS_QUICK + ['MM', 'CQ', 'QQ', 'CA', 'QA', 'XM', 'MX', 'BQ', 'PC', 'CP', 'BC', 'CB', 'CX', 'XQ', 'QX', 'PA', 'BA', 'XA', 'XX', 'BB']
 
 
 def obls(P):
